@@ -21,6 +21,12 @@ type c12Case struct {
 	Closer     string
 	Concurrent bool
 	Stall      int
+	// HoldPre: goroutines that reach one of the chosen scheduling points stay there until the close has
+	// been issued (the close lands in the middle of whatever they were doing)
+	HoldPre bool
+	// Inject: a peer that talks out of turn: just before the close a message for the newest client stream
+	// arrives, whether or not the server was ever asked for it
+	Inject bool
 }
 
 func genC12(t *rapid.T) c12Case {
@@ -36,8 +42,10 @@ func genC12(t *rapid.T) c12Case {
 	c.Stall = rapid.IntRange(0, 2).Draw(t, "stall")
 	if rapid.IntRange(0, 2).Draw(t, "points") == 0 {
 		c.Cfg.Points = rapid.SliceOfNDistinct(rapid.SampledFrom([]string{"manager.terminate.beforeClose", "stream.Cancel.beforeLock", "stream.checkFinished", "manager.manageReader.beforeDispatch",
-			"harness.Unmarshal.holding", "stream.rawWrite.beforeFrame", "stream.Close.beforeWriteLock", "manager.newStream.beforeSet", "manager.acquireSemaphore.acquired"}), 1, 3, func(s string) string { return s }).Draw(t, "pts")
+			"harness.Unmarshal.holding", "stream.rawWrite.beforeFrame", "stream.Close.beforeWriteLock", "manager.newStream.beforeSet", "manager.acquireSemaphore.acquired", "manager.newStream.afterPublish", "manager.manageStream.enter"}), 1, 3, func(s string) string { return s }).Draw(t, "pts")
 		c.Cfg.PointLimit = 8
+		c.HoldPre = rapid.Bool().Draw(t, "holdpre")
+		c.Inject = rapid.Bool().Draw(t, "inject")
 	}
 	c.Choices = rapid.SliceOfN(rapid.SampledFrom(c04Kinds), 0, 60).Draw(t, "choices")
 	return c
@@ -51,7 +59,7 @@ func runC12(c c12Case) (r pbt.Result) {
 		r.Detail = fmt.Sprintf("closer=%s closeAt=%d\n", c.Closer, c.CloseAt) + w.Dump()
 	}
 	choices := append([]int(nil), c.Choices...)
-	pre := sim.Filter{NoC2S: c.Stall >= 1, NoS2C: c.Stall == 2}
+	pre := sim.Filter{NoC2S: c.Stall >= 1, NoS2C: c.Stall == 2, Hold: func(string) bool { return c.HoldPre }}
 	started := 0
 	startNext := func() {
 		if started < len(c.RPCs) {
@@ -75,6 +83,14 @@ func runC12(c c12Case) (r pbt.Result) {
 		}
 	}
 	w.Quiesce()
+	injected := false
+	if s2c := w.B.Out(); c.Inject && started > 0 && s2c.Queued() == 0 && !s2c.CanAccept() {
+		// frame boundary: nothing of the real server is in flight
+		s2c.Inject(packetFramesOpt(uint64(started), 1, 2, false, sim.MakePayload(uint32(started-1)<<8, 's', 0, 3), 1, false))
+		s2c.Deliver(0)
+		w.Quiesce()
+		injected = true
+	}
 	inFlight := w.InCall("c")
 	hInFlight := w.InCall("h")
 	writeParked := w.A.Out().CanAccept() || w.B.Out().CanAccept()
@@ -226,16 +242,19 @@ func runC12(c c12Case) (r pbt.Result) {
 		r.Detailf("client %d server %d", w.A.Closes(), w.B.Closes())
 		return
 	}
-	if leaks := sim.DrpcGoroutines(sim.Snapshot()); len(leaks) > 0 {
+	if leaks := w.Leaks(sim.Snapshot()); len(leaks) > 0 {
 		fail("library goroutines left behind after closing")
 		for _, g := range leaks {
 			r.Detailf("%s\n", g.Frames)
 		}
 		return
 	}
-	if v := w.Violations(); len(v) > 0 {
+	if v := w.Violations(); len(v) > 0 && !injected {
 		fail("%s", v[0])
 		return
+	}
+	if injected {
+		r.Label("peer_message_out_of_turn")
 	}
 	r.Label("closer_" + c.Closer)
 	if len(inFlight) > 0 {
@@ -252,6 +271,9 @@ func runC12(c c12Case) (r pbt.Result) {
 	}
 	if len(c.Cfg.Points) > 0 {
 		r.Label("points")
+	}
+	if c.HoldPre {
+		r.Label("held_at_points_until_close")
 	}
 	r.NonTrivial = len(inFlight)+len(hInFlight) > 0
 	r.Key = strings.Join(w.Trace, ",") + fmt.Sprintf("|%+v|%+v", c.Cfg, c.RPCs)
